@@ -32,7 +32,7 @@ DIALECTS = [[",", '"'], [",", '"'], [",", '"'], [";", '"'], ["|", '"'], ["\t", '
 
 
 def generate(rng, i, tier):
-    rows = gen.gen_rows(rng)
+    rows = gen.gen_rows(rng, ws_lines=True)
     hdr = rows[0]
     if rng.random() < 0.25 and len(rows) > 2:
         # an exact duplicate of a record somewhere later in the file
